@@ -149,6 +149,11 @@ pub fn query_ndt(ts: i64, ns: u32) -> NaiveDateTime {
 const DAY: i64 = 86_400;
 
 pub fn generate(rng: &mut Rng, tier: Tier) -> Plan {
+    generate_with(rng, tier, false)
+}
+
+/// `allow_null`: a share of the Python-facing curves get the Null interpolator.
+pub fn generate_with(rng: &mut Rng, tier: Tier, allow_null: bool) -> Plan {
     let n = match rng.below(100) {
         0..=39 => rng.usize_in(2, 3),
         40..=86 => rng.usize_in(2, 8),
@@ -247,6 +252,18 @@ pub fn generate(rng: &mut Rng, tier: Tier) -> Plan {
     nodes.sort_by_key(|n| n.ts);
     nodes.dedup_by_key(|n| n.ts);
     let n = nodes.len();
+    // a pair (or run) of nodes only seconds apart, decades after the first node: the
+    // interpolation weight is then a small difference of large times
+    if n >= 3 && rng.chance(0.05) {
+        let runs = rng.usize_in(1, 2);
+        for _ in 0..runs {
+            let i = rng.usize_in(2, n - 1);
+            let cand = nodes[i - 1].ts + rng.i64_in(1, 120);
+            if i + 1 >= n || cand < nodes[i + 1].ts {
+                nodes[i].ts = cand;
+            }
+        }
+    }
     // sometimes a user variable carries the very name a generated tag would have
     if kind > 0 && rng.chance(0.04) {
         let j = rng.below(n as u64) as usize;
@@ -304,6 +321,21 @@ pub fn generate(rng: &mut Rng, tier: Tier) -> Plan {
             ad: rng.below(3) as u8,
         }
     };
+    let mut interp = interp;
+    if let Ctor::Py { .. } = ctor {
+        // the Python-facing constructor takes any mixture of floats, Duals and Dual2s
+        if rng.chance(0.15) {
+            let many = if many_vars { 4 } else { 2 };
+            for nd in nodes.iter_mut() {
+                let k = rng.below(3) as u8;
+                nd.num = gen_num(rng, k, nd.num.value(), many, prefix);
+            }
+        }
+        // ... and the interpolator that cannot be looked up (values are produced elsewhere)
+        if allow_null && rng.chance(0.04) {
+            interp = "null".to_string();
+        }
+    }
     let index_base = if rng.chance(0.6) {
         Some(Fx::new(match rng.below(20) {
             0 => 1.0,
@@ -478,6 +510,18 @@ fn all_user_names(nodes: &[NodeSpec]) -> Vec<String> {
     out
 }
 
+/// Make a plan's nodes one kind (floats) if they are mixed: CurveDF takes one kind only.
+pub fn unify_kinds(setup: &mut Setup) {
+    if uniform_kind(&setup.nodes).is_none() {
+        for n in setup.nodes.iter_mut() {
+            n.num = Num::F(Fx::new(n.num.value()));
+        }
+    }
+    if setup.interp == "null" {
+        setup.interp = "log_linear".to_string();
+    }
+}
+
 fn uniform_kind(nodes: &[NodeSpec]) -> Option<u8> {
     let k = nodes[0].num.kind();
     if nodes.iter().all(|n| n.num.kind() == k) {
@@ -496,7 +540,11 @@ pub fn build_with_cal(setup: &Setup, pycal: Option<CalType>) -> Result<Sut, Fail
     if setup.nodes.len() < 2 {
         return Err(herr("curve plan needs at least two nodes"));
     }
-    let kind = uniform_kind(&setup.nodes).ok_or_else(|| herr("mixed node kinds in plan"))?;
+    let kind = match (&setup.ctor, uniform_kind(&setup.nodes)) {
+        (_, Some(k)) => k,
+        (Ctor::Py { .. }, None) => 3,
+        (Ctor::Df, None) => return Err(herr("mixed node kinds in a CurveDF plan")),
+    };
     match &setup.ctor {
         Ctor::Py { ad } => {
             let mut m: IndexMap<NaiveDateTime, Number> = IndexMap::new();
@@ -644,7 +692,8 @@ impl Model {
             return R::var(v, &format!("{}{}", self.id, i));
         }
         match &n.num {
-            Num::F(_) => R::constant(v),
+            // (only in a curve of mixed kinds: the float nodes get the generated tag)
+            Num::F(_) => R::var(v, &format!("{}{}", self.id, i)),
             Num::D { g, .. } => {
                 let gg: Vec<(String, f64)> = g.iter().map(|(n, c)| (n.clone(), c.get())).collect();
                 R::with(v, &gg, &[])
@@ -665,7 +714,7 @@ impl Model {
 
     /// Tag state after construction.
     fn initial(&self, setup: &Setup) -> Tags {
-        let kind = self.nodes[0].num.kind();
+        let kind = self.nodes.iter().map(|n| n.num.kind()).max().unwrap_or(0);
         match &setup.ctor {
             Ctor::Df => Tags {
                 order: kind,
@@ -1192,7 +1241,108 @@ fn dfs(
     Ok(())
 }
 
+/// A curve with the Null interpolator cannot be looked up; what the property still says about
+/// it: switches succeed and are reported by `ad`, the nodes read back in date order with their
+/// values, and an index curve's index value before the first node is zero (an error without
+/// `index_base`) - none of which needs a curve value.
+fn execute_null(plan: &Plan, obs: &mut Obs) -> Result<(), Fail> {
+    let sut = build(&plan.setup)?;
+    let mut sorted = plan.setup.nodes.clone();
+    sorted.sort_by_key(|n| n.ts);
+    let first_ts = sorted[0].ts;
+    let seqs: Vec<Vec<u8>> = match &plan.history {
+        History::Exhaustive { depth } => all_sequences((*depth).min(2)),
+        History::Sequence(s) => vec![s.clone()],
+    };
+    obs.count("setup.Curve.__new__.null");
+    for seq in seqs {
+        let mut cur = call(P, "Curve::clone", || sut.clone_())?;
+        let mut order = match plan.setup.ctor {
+            Ctor::Py { ad } => ad,
+            Ctor::Df => return Err(HarnessError("null interpolator needs the Python constructor".into()).into()),
+        };
+        for step in 0..=seq.len() {
+            if step > 0 {
+                let k = seq[step - 1];
+                let r = call(P, "Curve::set_ad_order", || cur.set_order(order_of(k)))?;
+                if r.is_err() {
+                    return Err(v(
+                        "set-order-error",
+                        format!("set_ad_order({}) returned an error on a null-interpolated curve", k),
+                    ));
+                }
+                order = k;
+            }
+            let ad = call(P, "Curve::ad", || cur.ad())?;
+            if order_num(ad) != order {
+                return Err(v(
+                    "ad-getter|null",
+                    format!("ad() reports order {} but order {} was set", order_num(ad), order),
+                ));
+            }
+            if let Sut::Py(pc) = &cur {
+                let got = call(P, "Curve::nodes", || pc.nodes())?;
+                if got.len() != sorted.len() {
+                    return Err(v("nodes|null", format!("{} nodes read back, {} supplied", got.len(), sorted.len())));
+                }
+                for (i, (k, n)) in got.iter().enumerate() {
+                    let s = see(n);
+                    if k.and_utc().timestamp() != sorted[i].ts
+                        || s.real.to_bits() != sorted[i].num.value().to_bits()
+                        || s.kind != order
+                    {
+                        return Err(v(
+                            "nodes|null",
+                            format!(
+                                "node {} reads back as ({}, {:e}, kind {}) after switches {:?}; supplied ({}, {:e}), order {}",
+                                i, k, s.real, s.kind, &seq[..step], ts_to_ndt(sorted[i].ts), sorted[i].num.value(), order
+                            ),
+                        ));
+                    }
+                }
+            }
+            for (qi, q) in plan.queries.iter().enumerate() {
+                if *q >= first_ts {
+                    continue;
+                }
+                let d = query_ndt(*q, plan.query_ns.get(qi).copied().unwrap_or(0));
+                let iv = call(P, "Curve::index_value", || cur.index_value(&d))?;
+                match (plan.setup.index_base, iv) {
+                    (None, Err(())) => {}
+                    (Some(_), Ok(n)) => {
+                        let s = see(&n);
+                        if s.real != 0.0 {
+                            return Err(v(
+                                "index-value-before-first-node|null",
+                                format!("index_value before the first node is {:e} (expected 0)", s.real),
+                            ));
+                        }
+                        obs.count("reach.null_curve_index_value_before_first_node");
+                    }
+                    (None, Ok(_)) => {
+                        return Err(v(
+                            "index-value-without-base|null",
+                            "index_value returned a number on a curve without index_base".into(),
+                        ))
+                    }
+                    (Some(_), Err(())) => {
+                        return Err(v(
+                            "index-value-error|null",
+                            "index_value before the first node returned an error on a curve with index_base".into(),
+                        ))
+                    }
+                }
+            }
+            obs.count("probe.null_curve_states");
+        }
+    }
+    Ok(())
+}
+
 pub fn execute(plan: &Plan, obs: &mut Obs) -> Result<(), Fail> {
+    if plan.setup.interp == "null" {
+        return execute_null(plan, obs);
+    }
     let sut = build(&plan.setup)?;
     let mut sorted = plan.setup.nodes.clone();
     sorted.sort_by_key(|n| n.ts);
@@ -1233,6 +1383,12 @@ pub fn execute(plan: &Plan, obs: &mut Obs) -> Result<(), Fail> {
     }
     if model.nodes.len() > 128 {
         obs.count("reach.long_curve_over_128_nodes");
+    }
+    if uniform_kind(&model.nodes).is_none() {
+        obs.count("reach.python_constructor_with_mixed_node_kinds");
+    }
+    if model.nodes.windows(2).skip(1).any(|w| w[1].ts - w[0].ts <= 120 && w[0].ts - model.nodes[0].ts > 10 * 365 * DAY) {
+        obs.count("reach.nodes_seconds_apart_decades_after_first");
     }
     if plan.setup.share_vars && model.nodes[0].num.kind() > 0 {
         obs.count("reach.nodes_with_pointer_shared_variable_lists");
@@ -1396,12 +1552,14 @@ pub fn shrink(plan: &Plan) -> Vec<Plan> {
         out.push(p);
     }
     if let Ctor::Py { .. } = plan.setup.ctor {
-        let mut p = plan.clone();
-        p.setup.ctor = Ctor::Df;
-        out.push(p);
+        if plan.setup.interp != "null" && uniform_kind(&plan.setup.nodes).is_some() {
+            let mut p = plan.clone();
+            p.setup.ctor = Ctor::Df;
+            out.push(p);
+        }
     }
     // simpler node values (uniform kind must be preserved: change all nodes together)
-    let kind = plan.setup.nodes[0].num.kind();
+    let kind = plan.setup.nodes.iter().map(|n| n.num.kind()).max().unwrap_or(0);
     if kind > 0 {
         let mut p = plan.clone();
         for n in p.setup.nodes.iter_mut() {
@@ -1451,7 +1609,7 @@ impl Scenario for C12 {
     }
     fn unit(seed: u64, tier: Tier, unit: u64, sink: &mut dyn FnMut(Plan) -> bool) {
         let mut rng = Rng::new(mix(seed, "C12", unit));
-        sink(generate(&mut rng, tier));
+        sink(generate_with(&mut rng, tier, true));
     }
     fn execute(plan: &Plan, obs: &mut Obs) -> Result<(), Fail> {
         execute(plan, obs)
